@@ -18,6 +18,9 @@ LOCAL INSTANCE SequencesExt
 CONSTANTS CharsM,     \* letters of values and string fields
           MaxPat,     \* maximal length of a single-string pattern
           MaxFld,     \* maximal length of the string in field f
+          M_DoIfDecidesAlone, \* mechanism (processor.isMatch): when the action has a do_if checker its answer is the
+                      \* decision, whatever match_mode / match_invert say (no match_fields logic after it); FALSE =
+                      \* mutant "do_if is a pre-filter in front of the match_fields logic" (MatchFields_mutant_doif.cfg)
           D_AndRegexp \* former defect D11 (repaired in file.d by "fix: match_mode and / and_prefix must honour
                       \* regexp conditions"): in the and-modes a regexp condition was also asked for a listed
                       \* value and therefore never matched.  FALSE in the faithful configurations; TRUE only in
@@ -191,6 +194,15 @@ ImplRefinesDecl ==
 ImplMatchesDecl ==
   IsRule => \A i \in 1..Len(Evs) :
      LET d == Decl(cs.rule, Evs[i]) IN d = "U" \/ Impl(cs.rule, Evs[i]) = d
+
+\* processor.isMatch for an action that has a do_if checker (answer d) next to match_mode / match_invert
+IsMatchWithDoIf(d, r, ev) ==
+  IF M_DoIfDecidesAlone THEN d ELSE d /\ ImplOn(r.conds, r, ev)
+\* do_if decides alone: with (empty) match_fields of any mode, inverted or not, the decision is do_if's answer
+DoIfDecidesAlone ==
+  IsRule => \A i \in 1..Len(Evs) : \A d \in BOOLEAN :
+     /\ IsMatchWithDoIf(d, cs.rule, Evs[i]) = d
+     /\ IsMatchWithDoIf(d, [cs.rule EXCEPT !.conds = <<>>], Evs[i]) = d
 
 \* the (random) order in which the Go map hands over the conditions cannot matter
 CondOrderIrrelevant ==
